@@ -14,17 +14,31 @@ From Verif Require Import Lib.Bytes Lib.Obs Lib.HeaderMap Model.Frame Model.Stat
 From Verif Require Import Model.Decoder Proofs.Decoder.
 Open Scope N_scope.
 
-(* never panics: from ANY decoder state, for any script and any number of polls, no poll
-   reaches one of the panic sites of the Rust code (Buf::get_u8 / get_u32 on a short buffer,
-   the slice [0..len] in decompress, the unwraps on Frame::into_data / into_trailers,
-   panic!("unexpected frame")) *)
+(* never panics.  The panic sites of the Rust code are Buf::get_u8 / get_u32 on a short buffer,
+   the slice [0..len] in decompress, the unwraps on Frame::into_data / into_trailers and
+   panic!("unexpected frame") - unreachable from ANY state, any script - and HeaderMap::extend
+   when a SECOND trailers block arrives (only possible when the stream is polled again after it
+   ended, over a body that keeps producing): http's HeaderMap panics beyond 24576 distinct
+   names; the model over-approximates that by entry counts ([extend_may_panic]).
+   (1) a caller that drains a stream that has not yet received trailers - in particular a fresh
+       one - never panics, whatever the script;
+   (2) polling on, from any state, never panics as long as the header entries already held plus
+       all trailer entries still in the script ([trailer_load]) are at most 24576. *)
 Theorem c07_never_panics :
   forall (enc msg : Type) (deser : list N -> option msg)
          (decompress : enc -> list N -> option (list N))
          (n : nat) (evs : list bev) (g : bstat) (d : dec enc),
-    ~ In Panic (fst (polls deser decompress n evs g d)) /\
-    ~ In Panic (fst (drain deser decompress n evs g d)).
+    (d_trailers d = None -> ~ In Panic (fst (drain deser decompress n evs g d))) /\
+    (trailer_load d evs <= HM_MAX_NAMES ->
+       ~ In Panic (fst (polls deser decompress n evs g d)) /\
+       ~ In Panic (fst (drain deser decompress n evs g d))).
 Proof. exact @dec_no_panic. Qed.
+
+(* the bound of (2) is needed: two trailers blocks of 24576 + 1 entries, polled past the end *)
+Example c07_extend_panic_reachable :
+  obs_decode Request None None [] [BTrailers (names_hm 24576 1); BTrailers (names_hm 1 2)] 3 1 =
+  Nd [Nd [Nd [Nn 3]]; Nn 0; Nd [Nd [Nn 4]]].
+Proof. vm_compute. reflexivity. Qed.
 
 (* what is yielded is framed input: the Ok items polled out of a fresh stream are, in order,
    what a PREFIX of the frames of an independent grammar parse ([frames], Model/Decoder.v: flag,
@@ -97,18 +111,16 @@ Theorem c07_drain_terminates :
       b_end_polls g' <= 1.
 Proof. exact @dec_drain_terminates. Qed.
 
-(* truncation is reported: if a body of data chunks only (any chunking, Pending anywhere) ends
-   plainly and a fresh stream drains to Ready(None) WITHOUT an error, then all events were
-   consumed, every complete frame of the input was delivered in order, and the input is exactly
-   a whole number of frames.  So every plain truncation inside a frame ends with an error
-   (which by the theorems above is final) - including a cut right after the five prefix bytes
-   (finding F-C07e, fixed by 735d8fef). *)
+(* truncation is reported: a body of data chunks (any chunking, Pending anywhere) that ends
+   plainly OR with one trailers frame, whatever it carries ([data_then_end]).  If a fresh stream
+   drains to Ready(None) WITHOUT an error, then all events were consumed, every complete frame of
+   the input was delivered in order, and the input is exactly a whole number of frames. *)
 Theorem c07_truncation_detected :
   forall (enc msg : Type) (deser : list N -> option msg)
          (decompress : enc -> list N -> option (list N))
          (fuel : nat) (evs : list bev) (dir : direction) (encoding : option enc) (max : option N)
          (trace : list (pres msg)) (d' : dec enc) (evs' : list bev) (g' : bstat),
-    Forall ev_ok evs -> only_dp evs ->
+    Forall ev_ok evs -> data_then_end evs ->
     drain deser decompress fuel evs (mkB 0) (dec_new dir encoding max) = (trace, Some (d', evs', g')) ->
     (forall st, ~ In (Item (IErr st)) trace) ->
     evs' = [] /\
@@ -116,6 +128,39 @@ Theorem c07_truncation_detected :
             (frames (data_of evs)) (oks_of trace) /\
     data_of evs = concat (map raw (frames (data_of evs))).
 Proof. exact @dec_truncation_detected. Qed.
+
+(* ... so EVERY truncation inside a frame ends the drain with an error (final, by the theorems
+   above): 'Unexpected EOF' at the plain end of the body (also right after the five prefix bytes,
+   F-C07e) and at a trailers frame whose status is not an error (F-C07f), or the trailers' own
+   error status when they carry one (response() takes precedence over the EOF check) *)
+Theorem c07_truncation_is_error :
+  forall (enc msg : Type) (deser : list N -> option msg)
+         (decompress : enc -> list N -> option (list N))
+         (fuel : nat) (evs : list bev) (dir : direction) (encoding : option enc) (max : option N)
+         (trace : list (pres msg)) (fin : dec enc * list bev * bstat),
+    Forall ev_ok evs -> data_then_end evs ->
+    drain deser decompress fuel evs (mkB 0) (dec_new dir encoding max) = (trace, Some fin) ->
+    data_of evs <> concat (map raw (frames (data_of evs))) ->
+    exists st, In (Item (IErr st)) trace.
+Proof. exact @dec_truncation_is_error. Qed.
+
+(* the hypotheses are met by a truncated body closed by OK trailers (the F-C07f witness) *)
+Example c07_truncation_premises :
+  let evs := [BData [0; 0; 0; 0; 5; 1; 2]; BTrailers [([103;114;112;99;45;115;116;97;116;117;115], [48])]] in
+  Forall ev_ok evs /\ data_then_end evs /\
+  data_of evs <> concat (map raw (frames (data_of evs))).
+Proof. repeat split; [repeat constructor | vm_compute; discriminate]. Qed.
+
+(* F-C07f (fixed): 00 00 00 00 05 01 02 then trailers grpc-status 0: one Err(INTERNAL), None;
+   with trailers grpc-status 5 the trailers' status wins *)
+Example c07_witness_f :
+  obs_decode (Response 200) None None []
+    [BData [0; 0; 0; 0; 5; 1; 2]; BTrailers [([103;114;112;99;45;115;116;97;116;117;115], [48])]] 4 1 =
+  Nd [Nd [Nd [Nn 2; Nn 13]; Nd [Nn 3]]; Nn 0; Nd [Nd [Nn 3]]; Nn 0] /\
+  obs_decode (Response 200) None None []
+    [BData [0; 0; 0; 0; 5; 1; 2]; BTrailers [([103;114;112;99;45;115;116;97;116;117;115], [53])]] 4 1 =
+  Nd [Nd [Nd [Nn 2; Nn 5]; Nd [Nn 3]]; Nn 0; Nd [Nd [Nn 3]]; Nn 0].
+Proof. split; vm_compute; reflexivity. Qed.
 
 (* F-C07e (fixed): 00 00 00 00 05 then the end of the body is one Err(INTERNAL), then None -
    like the same body with one more byte *)
@@ -171,6 +216,7 @@ Print Assumptions c07_first_error_is_final.
 Print Assumptions c07_first_error_is_final_trace.
 Print Assumptions c07_drain_terminates.
 Print Assumptions c07_truncation_detected.
+Print Assumptions c07_truncation_is_error.
 
 (* the constants written by hand in the model equal the ones regenerated from the Rust source
    (Gen/ConstTables.v, rewritten by rs2v on every run) *)
